@@ -18,13 +18,16 @@ def _code_objects(code):
 
 
 def executable_lines(path: str) -> set:
+    """Lines inside function bodies (module-level lines run at import, before any monitor exists)."""
     with open(path) as f:
         src = f.read()
     top = compile(src, path, "exec")
     lines = set()
     for c in _code_objects(top):
+        if c is top:
+            continue
         for _, _, ln in c.co_lines():
-            if ln is not None and ln > 0:
+            if ln is not None and ln > 0 and ln != c.co_firstlineno:
                 lines.add(ln)
     return lines
 
